@@ -1070,7 +1070,7 @@ class FnExec:
         for pi, o in enumerate(outs):
             if o.kind in ("normal", "return"):
                 s2 = o.state.copy(); s2.env["result"] = o.value if o.value is not None else Val(NONE, z3.BoolVal(True))
-                if o.value is None and "YIELDED" in o.state.env: s2.env["result"] = o.state.env["YIELDED"]      # a generator: callers see the list of yielded values
+                if "YIELDED" in o.state.env: s2.env["result"] = o.state.env["YIELDED"]      # a generator (also when left by a bare `return`): callers see the list of yielded values
                 if (is_init or getattr(spec, "assigns", None)) and o.state.undef:
                     self.oblige(f"path{pi}.init.all_fields_assigned({','.join(sorted(o.state.undef))})", "safe.defined", o.pc, z3.BoolVal(False), self.fn)
                 pcx = list(o.pc)
